@@ -1,15 +1,25 @@
 ----------------------------- MODULE RefCountConc -----------------------------
-(* Concurrent part of property C08: threads that own references to shared      *)
-(* reference-counted objects copy (refInc) and drop (refDec) them concurrently.*)
+(* Concurrent part of property C08: threads take references to shared          *)
+(* reference-counted objects and drop them concurrently.  A thread may take a  *)
+(* reference in two ways: by copying a reference it owns (Copy), or THROUGH A  *)
+(* BORROWED REFERENCE (Acquire): it builds a handle from a raw pointer, copies *)
+(* a handle somebody else owns, or calls refInc(), while the lender (the       *)
+(* creating code) keeps its reference for the duration.  Several threads may   *)
+(* acquire through the same borrowed reference at the same time, in particular *)
+(* when the count is exactly 1.                                                *)
 (*                                                                             *)
 (* Mechanism modelled after RefCountedObject (rkcommon/memory/IntrusivePtr.h): *)
 (*   refInc:  refCounter++                         one atomic read-modify-write *)
 (*   refDec:  if (--refCounter == 0) delete this   one atomic read-modify-write *)
 (*                                                 whose result decides        *)
-(* With Atomic = TRUE each is a single step.  With Atomic = FALSE the          *)
-(* increment is a load followed by a store (a plain `long long` counter): this *)
-(* instance is the NEGATIVE CONTROL; TLC must refute it (lost update, then     *)
-(* destruction while a thread still holds a reference).                        *)
+(* IncMode = "atomic": the increment is a single step.  The other two modes    *)
+(* are NEGATIVE CONTROLS which TLC must refute:                                *)
+(*   "split"     a load followed by a store (a plain `long long` counter):     *)
+(*               lost update, then destruction while a reference is held       *)
+(*   "fastpath"  load; if the value is 1 ("sole owner, nobody else can be      *)
+(*               touching the counter") store 2, otherwise an atomic increment:*)
+(*               two threads acquiring through one borrowed reference both     *)
+(*               read 1 and both store 2 - one reference is lost               *)
 (*                                                                             *)
 (* Contract (what the property states): at every quiescent point the count     *)
 (* equals the creator's reference plus the references the threads own; the     *)
@@ -21,15 +31,17 @@ CONSTANTS Threads,   \* thread ids
           Objs,      \* shared objects
           MaxOps,    \* operations per thread
           MaxOwn,    \* bound on references a thread owns per object
-          Atomic     \* TRUE: atomic increment; FALSE: load/store increment
+          InitOwn,   \* references every thread owns initially (0: threads start with a borrowed reference only)
+          CreatorRefs, \* references the creating code holds initially (the count the acquiring threads find: 1, 2, 3)
+          IncMode    \* "atomic" | "split" | "fastpath": how refInc() changes the counter
 
 VARIABLES count,     \* count[o]: the counter word of object o
           destroyed, \* destroyed[o]: how often the destructor ran
-          creator,   \* creator[o]: 1 while the creating code holds its reference
+          creator,   \* creator[o]: references the creating code (the lender) still holds
           own,       \* own[t][o]: references thread t owns
           ops,       \* ops[t]: operations thread t has started
-          pc,        \* pc[t]: "idle", or "inc" between the load and the store of a split increment
-          tmp,       \* tmp[t] = [o, v]: object and value loaded by the split increment
+          pc,        \* pc[t]: "idle", or "inc" between the load and the second step of a non-atomic increment
+          tmp,       \* tmp[t] = [o, v]: object and value loaded by the non-atomic increment
           uaf        \* TRUE once a destroyed object was accessed
 vars == <<count, destroyed, creator, own, ops, pc, tmp, uaf>>
 
@@ -39,10 +51,10 @@ Sum(f, S) == LET RECURSIVE Go(_)
 Owned(o) == creator[o] + Sum([t \in Threads |-> own[t][o]], Threads)
 
 Init ==
-  /\ count = [o \in Objs |-> 1 + Cardinality(Threads)]   \* creator + one reference per thread
+  /\ count = [o \in Objs |-> CreatorRefs + InitOwn * Cardinality(Threads)]   \* creator's + the threads' initial references
   /\ destroyed = [o \in Objs |-> 0]
-  /\ creator = [o \in Objs |-> 1]
-  /\ own = [t \in Threads |-> [o \in Objs |-> 1]]
+  /\ creator = [o \in Objs |-> CreatorRefs]
+  /\ own = [t \in Threads |-> [o \in Objs |-> InitOwn]]
   /\ ops = [t \in Threads |-> 0]
   /\ pc = [t \in Threads |-> "idle"]
   /\ tmp = [t \in Threads |-> [o |-> CHOOSE o \in Objs : TRUE, v |-> 0]]
@@ -56,27 +68,34 @@ Decrement(o) ==
   /\ destroyed' = IF count[o] - 1 = 0 THEN [destroyed EXCEPT ![o] = @ + 1] ELSE destroyed
   /\ Touch(o)
 
-\* copy a handle the thread owns: needs an owned reference (so the object must be alive by contract)
-CopyAtomic(t, o) ==
-  /\ Atomic /\ pc[t] = "idle" /\ ops[t] < MaxOps /\ own[t][o] >= 1 /\ own[t][o] < MaxOwn
+\* A thread may start taking a reference to o if it owns one (copy of its own handle: the object is alive by
+\* contract) or if the creating code lends it one (raw pointer / shared handle / refInc(): the lender keeps its
+\* reference until the acquisition is complete, see CreatorDrop).
+MayTake(t, o) == own[t][o] >= 1 \/ creator[o] >= 1
+CanStart(t, o) == pc[t] = "idle" /\ ops[t] < MaxOps /\ MayTake(t, o) /\ own[t][o] < MaxOwn
+
+TakeAtomic(t, o) ==
+  /\ IncMode = "atomic" /\ CanStart(t, o)
   /\ count' = [count EXCEPT ![o] = @ + 1]
   /\ own' = [own EXCEPT ![t][o] = @ + 1]
   /\ ops' = [ops EXCEPT ![t] = @ + 1]
   /\ Touch(o)
   /\ UNCHANGED <<destroyed, creator, pc, tmp>>
 
-CopyLoad(t, o) ==
-  /\ ~Atomic /\ pc[t] = "idle" /\ ops[t] < MaxOps /\ own[t][o] >= 1 /\ own[t][o] < MaxOwn
+TakeLoad(t, o) ==
+  /\ IncMode # "atomic" /\ CanStart(t, o)
   /\ tmp' = [tmp EXCEPT ![t] = [o |-> o, v |-> count[o]]]
   /\ pc' = [pc EXCEPT ![t] = "inc"]
   /\ ops' = [ops EXCEPT ![t] = @ + 1]
   /\ Touch(o)
   /\ UNCHANGED <<count, destroyed, creator, own>>
 
-CopyStore(t) ==
+\* second step: "split" stores the loaded value + 1; "fastpath" stores 2 if it loaded 1, else increments atomically now
+TakeFinish(t) ==
   /\ pc[t] = "inc"
   /\ LET o == tmp[t].o IN
-       /\ count' = [count EXCEPT ![o] = tmp[t].v + 1]
+       /\ count' = [count EXCEPT ![o] = IF IncMode = "split" THEN tmp[t].v + 1
+                                        ELSE IF tmp[t].v = 1 THEN 2 ELSE @ + 1]
        /\ own' = [own EXCEPT ![t][o] = @ + 1]
        /\ Touch(o)
   /\ pc' = [pc EXCEPT ![t] = "idle"]
@@ -90,23 +109,25 @@ Drop(t, o) ==
   /\ Decrement(o)
   /\ UNCHANGED <<creator, pc, tmp>>
 
-\* the creating code gives up its reference
+\* the creating code gives up one of its references - not while a thread is in the middle of taking one (a lender
+\* keeps what it lends until the borrower is done)
 CreatorDrop(o) ==
-  /\ creator[o] = 1
-  /\ creator' = [creator EXCEPT ![o] = 0]
+  /\ creator[o] >= 1
+  /\ \A t \in Threads : pc[t] = "idle" \/ tmp[t].o # o
+  /\ creator' = [creator EXCEPT ![o] = @ - 1]
   /\ Decrement(o)
   /\ UNCHANGED <<own, ops, pc, tmp>>
 
 Next ==
-  \/ \E t \in Threads, o \in Objs : CopyAtomic(t, o) \/ CopyLoad(t, o) \/ Drop(t, o)
-  \/ \E t \in Threads : CopyStore(t)
+  \/ \E t \in Threads, o \in Objs : TakeAtomic(t, o) \/ TakeLoad(t, o) \/ Drop(t, o)
+  \/ \E t \in Threads : TakeFinish(t)
   \/ \E o \in Objs : CreatorDrop(o)
 
 Spec == Init /\ [][Next]_vars
 
 -------------------------------------------------------------------------------
 Quiescent == \A t \in Threads : pc[t] = "idle"
-TypeOK == /\ \A o \in Objs : destroyed[o] \in 0..3 /\ creator[o] \in {0, 1}
+TypeOK == /\ \A o \in Objs : destroyed[o] \in 0..3 /\ creator[o] \in 0..CreatorRefs
           /\ \A t \in Threads : ops[t] \in 0..MaxOps /\ \A o \in Objs : own[t][o] \in 0..MaxOwn
 \* useCount() = creator's reference + references owned by the threads, whenever no operation is in flight
 Conservation == Quiescent => \A o \in Objs : destroyed[o] = 0 => count[o] = Owned(o)
